@@ -5,6 +5,7 @@ package main
 // on a pruned query means nothing and the full query is tried next.
 
 import (
+	"regexp"
 	"strings"
 )
 
@@ -64,7 +65,7 @@ var builtinSyms = map[string]bool{
 	"any-nil": true, "any-str": true, "any-int": true, "any-bool": true, "any-ref": true, "any-slice": true, "any-opq": true,
 	"a-str": true, "a-int": true, "a-bool": true, "a-ref": true, "a-slice": true, "a-opq": true,
 	"a-stag": true, "a-itag": true, "a-btag": true, "a-rtag": true, "a-sltag": true, "a-otag": true,
-	"any-tag": true, "any-wf": true, "tag-kind": true, "no-trigger": true, "tag-uncomparable": true, "go-div": true, "go-mod": true,
+	"any-tag": true, "any-wf": true, "tag-kind": true, "no-trigger": true, "ref-ty": true, "tag-uncomparable": true, "go-div": true, "go-mod": true,
 	"is": true, "_": true, "str.len": true, "str.++": true, "str.at": true, "str.substr": true, "str.contains": true,
 	"str.prefixof": true, "str.suffixof": true, "str.indexof": true, "str.to_code": true, "str.from_code": true,
 	"str-itoa": true, "itoa-inv": true, "any-fmt": true, "err-msg": true, "pattern": true,
@@ -279,6 +280,8 @@ func onPathOnly(lines []string, guard string) []string {
 // (transitively). The prelude accumulates ghost declarations of every function processed
 // so far; without this the text of a query - and with it the solver's heuristic choices -
 // would depend on which other functions were verified before.
+var allocTypeFact = regexp.MustCompile(`^\(assert \(=> \S+ \(= \(ref-ty ref![0-9]+\) [0-9]+\)\)\)$`)
+
 func gcDecls(text string) string {
 	lines := strings.Split(text, "\n")
 	type decl struct {
@@ -297,6 +300,23 @@ func gcDecls(text string) string {
 				work = append(work, s)
 			}
 		}
+	}
+	// allocation-type facts are only kept when something else talks about ref-ty
+	usesRefTy := false
+	for _, l := range lines {
+		if strings.Contains(l, "(ref-ty ") && !allocTypeFact.MatchString(l) {
+			usesRefTy = true
+			break
+		}
+	}
+	if !usesRefTy {
+		kept := lines[:0:0]
+		for _, l := range lines {
+			if !allocTypeFact.MatchString(l) {
+				kept = append(kept, l)
+			}
+		}
+		lines = kept
 	}
 	for i, l := range lines {
 		switch {
